@@ -197,11 +197,14 @@ impl<'a> SectionsBuilder<'a> {
                 self.builder.quote();
                 self.set_lines_range(quote.line_range);
                 let id = self.builder.id();
-                SectionsBuilder::new(
+                // the blocks inside the quote have lines too
+                let quoted_lines = SectionsBuilder::new(
                     &mut self.builder.graph().builder(id),
                     &quote.blocks,
                     &self.key,
-                );
+                )
+                .nodes_map();
+                self.nodes_map.extend(quoted_lines);
             }
             HorizontalRule(rule) => {
                 self.builder.horizontal_rule();
